@@ -7,31 +7,42 @@ from ownlib import hx, hxs
 
 
 def mutations(kindname, y, nh):
-    """a history acting on handle y only (new objects get handles nh, nh+1, ...); returns ops"""
+    """a history acting on handle y only (new objects get handles nh, nh+1, ...); returns ops.  Every
+    history ends with done() followed by RE-USE of the object without init (done leaves the class's
+    empty state)."""
     k = kindname.split('-')[0]
     if k in ('str', 'ustr', 'mbuff'):
         return ['append %d 7a7a' % y, 'substr %d 0 1' % y, 'done %d' % y, 'append %d 71' % y]
     if k == 'obj':
         return ['done %d' % y]
     if k == 'pair':
-        return ['str 6e6b', 'setk %d %d' % (y, nh), 'setv %d _' % y, 'done %d' % y]
+        return ['str 6e6b', 'setk %d %d' % (y, nh), 'setv %d _' % y, 'done %d' % y, 'str 6b32', 'setk %d %d' % (y, nh + 1),
+                'str 7632', 'setv %d %d' % (y, nh + 2)]
     if k == 'tok':
         return ['eval %d' % y, 'str 2c', 'setsep %d %d' % (y, nh), 'eval %d' % y, 'str 7120722073', 'setsrc %d %d' % (y, nh + 1),
-                'eval %d' % y, 'done %d' % y]
+                'eval %d' % y, 'done %d' % y, 'eval %d' % y, 'str 6120622063', 'setsrc %d %d' % (y, nh + 2), 'eval %d' % y]
     if k == 'url':
         return ['str 6e6e', 'urlset %d 3 %d' % (y, nh), 'str 3939', 'urlset %d 4 %d' % (y, nh + 1), 'urlset %d 5 _' % y,
-                'unparse %d' % y, 'done %d' % y]
+                'unparse %d' % y, 'done %d' % y, 'str 6868', 'urlset %d 3 %d' % (y, nh + 2), 'unparse %d' % y]
     if k == 're':
-        return ['flags %d 69' % y, 'compile %d' % y, 'done %d' % y]
+        # every flag letter in turn (the read-back says what the object matches), recompile, empty, re-use
+        return ['flags %d 69' % y, 'compile %d' % y, 'flags %d %s' % (y, hxs('ms')), 'flags %d %s' % (y, hxs('x')),
+                'flags %d %s' % (y, hxs('8')), 'flags %d -' % y, 'flags %d %s' % (y, hxs('imsx')), 'done %d' % y,
+                'flags %d 69' % y, 'compile %d' % y]
     if k[0] == 'L':
         return ['str 7a', 'lappend %d %d' % (y, nh), 'str 30', 'lprepend %d %d' % (y, nh + 1), 'lremove_at %d 1' % y,
                 'lreverse %d' % y, 'str 6d', 'linsert_at %d %d 1' % (y, nh + 3), 'done %d' % y, 'str 6e', 'lappend %d %d' % (y, nh + 4)]
     if k[0] == 'V':
         return ['str 7a', 'vinsert %d %d' % (y, nh), 'str 30', 'vinsert %d %d' % (y, nh + 1), 'str 61', 'vremove %d %d' % (y, nh + 2),
-                'str 62', 'vinsert %d %d' % (y, nh + 4), 'done %d' % y]
+                'str 62', 'vinsert %d %d' % (y, nh + 4), 'done %d' % y, 'str 63', 'vinsert %d %d' % (y, nh + 5)]
     if k[0] == 'M':
+        # both forms of set (key + value, and the pair form with a pair the caller keeps and deletes), the
+        # map's own entry handed back, remove, done, re-use through the pair form
         return ['str 6b', 'str 6e6577', 'mset %d %d %d' % (y, nh, nh + 1), 'str 7a', 'mset %d %d %d' % (y, nh + 2, nh + 1),
-                'mremove %d %d' % (y, nh), 'mkeys %d _' % y, 'done %d' % y]
+                'pair %d %d' % (nh + 1, nh + 2), 'msetp %d %d' % (y, nh + 3), 'str 6b', 'setv %d %d' % (nh + 3, nh + 4),
+                'msetp %d %d' % (y, nh + 3), 'del %d' % (nh + 3), 'msetown %d %d' % (y, nh), 'msetownp %d %d' % (y, nh + 2),
+                'mremove %d %d' % (y, nh), 'mkeys %d _' % y, 'done %d' % y, 'pair %d %d' % (nh + 2, nh + 1),
+                'msetp %d %d' % (y, nh + 7), 'del %d' % (nh + 7)]
     return []
 
 
@@ -48,7 +59,10 @@ class C05(vlib.PropertyCheck):
                    'texts are NUL-free; object sizes below 2^31',
                    'comparisons across different classes (other than objpair against a bare key) are type confusion and outside '
                    'the quantifier',
-                   'the compiled PCRE pattern is opaque: dup equality of regexp is on pattern text and flags',
+                   'the value of a regexp is (pattern text, flag word); what pcre compiles from such a value is an oracle table '
+                   '(blocks left allocated, and which of 12 probe subjects it matches) calibrated against the running pcre library '
+                   'with straight pcre_compile/pcre_exec calls; every read-back of a regexp object includes what the OBJECT matches '
+                   '(both matching entry points) and must equal the table entry of its value',
                    'the service database answers "unknown" (interposed), so url parsing never fills a port']
     tie_text = ('correspondence harness: harness/c05.c built twice from the tree under test (ASan/UBSan build for values and memory '
                 'faults; sanitizer-free build with a monotone bump allocator behind -Wl,--wrap=malloc,... for comparisons by '
@@ -68,7 +82,10 @@ class C05(vlib.PropertyCheck):
               'returns the class name generated from the SPIF_DECL_CLASSNAME entries (C05_type_names_class). Decided by the '
               'correspondence check only: that the C routines are the modelled functions (generated programs over all classes run '
               'through the extracted model and the ASan build; dup followed by a history on the copy including del, then read-back '
-              'of the original, and vice versa; all pairs of pools of objects per class including NULL with the order laws '
+              'of the original, and vice versa - every such history ends with done() and re-use without init, maps are also '
+              'filled through the pair form of set and handed their own stored entries, and the read-back of a regexp says what '
+              'the object matches, with one class state per compile flag whose pattern makes the flag decide a probe; '
+              'all pairs of pools of objects per class including NULL with the order laws '
               're-checked on the implementation\'s own answers; address-ordered classes compared exactly in a second build whose '
               'allocator is monotone).'),
         design_ref='DESIGN.md section 7, C05')
@@ -81,8 +98,8 @@ class C05(vlib.PropertyCheck):
 
     # ---- generation ----
     def gen(self, tier, rng):
-        oracle = ownlib.calibrate(self._asan)
-        self._oracle = oracle
+        table = ownlib.calibrate(self._asan)
+        oracle = 're=?'                 # replaced at the end by the table entries each program needs
         cases = []
         S = ownlib.class_states()
         # 1. dup / type / independence, every class state
@@ -114,7 +131,8 @@ class C05(vlib.PropertyCheck):
         for i in range(nprog // 3):
             name, ops = S[rng.randrange(len(S))]
             specs.append(('dupi', 'dupi', ops + ['dup %d' % ownlib.subject(ops)], len(ops) + rng.randint(3, 14)))
-        cases += ownlib.grow(rng, oracle, specs, 32, avoid_addr=True)
+        cases = [ownlib.finalize(c, table) for c in cases]
+        cases += ownlib.grow(rng, table, specs, 32, avoid_addr=True)
         self._cases = cases
         return cases
 
